@@ -13,6 +13,10 @@ impl Monitor for C08 {
     fn prop(&self) -> &'static str {
         "C08"
     }
+    fn scalable(&self, g: &str) -> bool {
+        let _ = g;
+        true
+    }
     fn gens(&self, tier: Tier) -> Vec<Gen> {
         vec![
             gen("linkadr-sweep", 9 * 16 * 16 * 8 * tier.pick(1, 12, 0)),
